@@ -43,7 +43,10 @@ Inductive op :=
 | SetGAttr (a : attrs)
 | Copy
 | Subgraph (ns : list nat)
-| ClearAll.
+| ClearAll
+| EditNode (n : nat) (a : attrs)                         (* G.nodes[n].update(a) *)
+| EditEdge (u v l : nat) (a : attrs)                     (* G.get_graphs(l).edges[u, v].update(a) *)
+| Update (ns : list nat) (es : list (nat * nat * attrs)) (t : sel).   (* G.update(edges=es, nodes=ns, edge_type=t) *)
 
 Definition sel_match (t : sel) (l : nat) : bool :=
   match t with SAll => true | SName l' => Nat.eqb l l' end.
@@ -100,13 +103,13 @@ Section Generic.
     | AddNode n a => (p_add_node A n a s, Ok)
     | AddNodes ns a => (add_nodes ns a s, Ok)
     | AddEdge u v t a =>
-        (* "The nodes u and v will be automatically added if they are not already in the graph" — also when the
-           edge type turns out to be absent and the call raises *)
+        (* "The nodes u and v will be automatically added if they are not already in the graph"; an absent edge type
+           is the documented error and is detected first: the call raises and leaves the graph unchanged *)
         let s1 := p_add_node A v [] (p_add_node A u [] s) in
-        if sel_ok t s then (p_ins_edge A t u v a s1, Ok) else (s1, Err)
+        if sel_ok t s then (p_ins_edge A t u v a s1, Ok) else (s, Err)
     | AddEdges es t =>
         let s1 := add_ends3 es s in
-        if sel_ok t s then (ins_edges3 t es s1, Ok) else (s1, Err)
+        if sel_ok t s then (ins_edges3 t es s1, Ok) else (s, Err)
     | RemNode n => if has_node A s n then (p_del_node A n s, Ok) else (s, Either)
     | RemNodes ns => (del_nodes ns s, Ok)
     | RemEdge u v t =>
@@ -133,6 +136,11 @@ Section Generic.
     | Copy => (s, Ok)
     | Subgraph _ => (s, Ok)
     | ClearAll => (p_clear_all A s, Ok)
+    | EditNode n a => if has_node A s n then (p_add_node A n a s, Ok) else (s, Either)
+    | EditEdge u v l a => if has_edge A s l u v then (p_ins_edge A (SName l) u v a s, Ok) else (s, Either)
+    | Update ns es t =>
+        (* edges first, then the extra nodes; an absent edge type raises and leaves the graph unchanged *)
+        if sel_ok t s then (add_nodes ns [] (ins_edges3 t es (add_ends3 es s)), Ok) else (s, Err)
     end.
 
   Fixpoint set_nth (i : nat) (x : S) (l : list S) : list S :=
@@ -324,7 +332,10 @@ Definition obs (N : nat) (full : bool) (s : mstate) : sx :=
 
 (* ------------------------------------------------------------------ wire format *)
 Definition sx_attrs (s : sx) : attrs := sx_pairs s.
-Definition sx_sel (s : sx) : sel := let n := sx_nat s in if Nat.ltb n 4 then SName n else SAll.
+(* 0..3 layer names, 4 = "all"; any other code is a spelling the container does not know (e.g. an EdgeType enum member
+   instead of its string): a name that no layer has *)
+Definition sx_sel (s : sx) : sel :=
+  let n := sx_nat s in if Nat.ltb n 4 then SName n else if Nat.eqb n 4 then SAll else SName n.
 Definition sx_kind (s : sx) : kind := match sx_nat s with 0 => Und | _ => Dir end.
 Definition sx_edges3 (s : sx) : list (nat * nat * attrs) :=
   map (fun e => (sx_nat (sx_nth e 0), sx_nat (sx_nth e 1), sx_attrs (sx_nth e 2))) (sx_list s).
@@ -348,6 +359,9 @@ Definition sx_op (s : sx) : nat * op :=
    | 11 => SetGAttr (sx_attrs (a 0))
    | 12 => Copy
    | 14 => ClearAll
+   | 15 => EditNode (sx_nat (a 0)) (sx_attrs (a 1))
+   | 16 => EditEdge (sx_nat (a 0)) (sx_nat (a 1)) (sx_nat (a 2)) (sx_attrs (a 3))
+   | 17 => Update (sx_nats (a 0)) (sx_edges3 (a 1)) (sx_sel (a 2))
    | _ => Subgraph (sx_nats (a 0))
    end).
 
